@@ -1,6 +1,8 @@
 HOOK_COMMITS = ["4172cbf", "74fb8b3", "113d79e", "16481f2", "a8453e3", "1565b2c"]
 
 ENGINES = [
+    {"name": "serial", "path": "engines/serial.c + model/vmodel.c", "serves_properties": ["C10", "C11"],
+     "kind_free_text": "generated-model family run through the core's serial runtime and through an independent reference executor (own event list, plain malloc, own copy of the RNG streams); API-boundary observer compares per-LP dispatch sequences, per-event state digests and the stop point; ASan+UBSan, debug and NDEBUG"},
     {"name": "alloc", "path": "engines/alloc.c", "serves_properties": ["C05", "C12", "C13", "C11"],
      "kind_free_text": "drives the real rs_* API and model_allocator_checkpoint_take/_restore/_fossil_lp_collect against a shadow model (live set, copies of every block per checkpoint, operation log re-executed as coasting forward); 64 KiB and 2 KiB arena builds; exhaustive enumeration of short sequences on the small arena; ASan+UBSan"},
     {"name": "queue", "path": "engines/queue.c", "serves_properties": ["C15", "C11"],
@@ -16,6 +18,13 @@ ENGINES = [
 ]
 
 CHECKS = {
+    "C10": {
+        "engine": "serial",
+        "technique": "reference-model monitor at the API boundary over hundreds of generated models, real serial runtime under ASan+UBSan",
+        "text": "320 (quick) / 5000 (thorough) generated models - timestamp ties, bounded zero-delay chains, events scheduled at init (also at timestamp 0), payloads 0..300 bytes, dynamic memory, library RNG - are executed by the serial runtime; an observer records every dispatcher call; per LP the delivered events (timestamp, type, size, payload hash) and the state digest after each event must equal the reference executor's, LP_INIT/LP_FINI exactly once and first/last, and the run must stop exactly where the stop rule (all predicates, or first event at/after the termination time with GVT period 0) says.",
+        "design_ref": "DESIGN.md section 4, C10",
+        "note": "The reference resolves ties with the runtime's own comparator (the property does not fix a tie-break; C16 checks the comparator). Stop point tolerance zone: events with the same (timestamp,type,size) as the stop event. Positive GVT periods with a termination time (wall-clock sampled) are not asserted exactly.",
+    },
     "C05": {
         "engine": "alloc (+ sim oracle A when registered)",
         "technique": "runtime shadow-model oracle on the real allocator/checkpoint code under ASan+UBSan (restore + re-execution vs recorded state)",
